@@ -54,11 +54,13 @@ int kalign_run(struct msa *msa, int n_threads, int type, float gpo, float gpe, f
 {
         struct aln_tasks* tasks = NULL;
         struct aln_param* ap = NULL;
+        int ranked = 0;
         /* This also adds the ranks of the sequences !  */
 #ifdef KALIGN_VERIF
         kv_run(0, msa);
 #endif
         RUN(kalign_essential_input_check(msa, 0));
+        ranked = 1;
 
         /* If already aligned unalign ! */
         if(msa->aligned != ALN_STATUS_UNALIGNED){
@@ -152,5 +154,10 @@ int kalign_run(struct msa *msa, int n_threads, int type, float gpo, float gpe, f
 ERROR:
         aln_param_free(ap);
         free_tasks(tasks);
+        if(ranked){
+                /* hand the sequences back in the caller's order, otherwise a
+                   second call would record the sorted order as input order */
+                msa_sort_rank(msa);
+        }
         return FAIL;
 }
